@@ -212,13 +212,16 @@ def load_effects_ref():
     out = {}
     with open(os.path.join(VERIF, 'ref', 'ia32_effects.ref')) as f:
         for ln, line in enumerate(f, 1):
-            line = line.split('#')[0].rstrip()
-            if not line.strip():
+            line = line.rstrip()
+            if not line.strip() or line.startswith('# ') or line.strip() == '#' or line.startswith('#\t'):
                 continue
             parts = line.split()
             mn = parts[0]
-            e = {'F': set(), 'U': set(), 'D': set(), 'R': [], 'W': [], 'Z': None, 'line': ln}
+            e = {'F': set(), 'U': set(), 'D': set(), 'R': [], 'W': [], 'Z': None, 'line': ln, 'ext': False}
             for p in parts[1:]:
+                if p == 'X':
+                    e['ext'] = True
+                    continue
                 k, v = p.split(':', 1)
                 vals = [] if v == '-' else v.split(',')
                 if k in ('F', 'U', 'D'):
